@@ -54,3 +54,88 @@ def _undefined(repo):
                 ", ".join("(%s, %s, %s)" % (lean_str(a), str(b).lower(), str(c).lower()) for a, b, c in sorted(rows)),
                 ", ".join(lean_str(x) for x in strict)))
     return {"handle_undefined": sorted(rows), "strict_emit": strict}, lean
+
+
+def _split_top(expr, sep):
+    """split at `sep` outside parentheses / brackets / braces"""
+    out, depth, cur, i = [], 0, "", 0
+    while i < len(expr):
+        c = expr[i]
+        if c in "([{":
+            depth += 1
+        elif c in ")]}":
+            depth -= 1
+        if depth == 0 and expr.startswith(sep, i):
+            out.append(cur)
+            cur = ""
+            i += len(sep)
+            continue
+        cur += c
+        i += 1
+    out.append(cur)
+    return out
+
+
+@item("C06_INCLUDE_CHOICES")
+def _include_choices(repo):
+    """The candidate-building code of `perform_include` (`vm/mod.rs`): which object kinds reach
+    `try_iter()` (every `.filter(..)` on the object in front of it removes kinds), what happens
+    when there is nothing to iterate (the single-name arm), and the condition under which the
+    tail raises `TemplateNotFound`.  The Lean model (`MJ.Blocks.choices`, `notFoundRaised`)
+    interprets these tables; shapes the extractor does not know are reported missing."""
+    obj_src = re.sub(r"///.*", "", read(repo, "minijinja/src/value/object.rs"))
+    reprs = re.findall(r"^\s*([A-Z]\w*)\s*,", fn_body(obj_src, r"pub enum ObjectRepr\s*\{"), re.M)
+    if not reprs:
+        raise KeyError("ObjectRepr variants")
+    body = fn_body(read(repo, "minijinja/src/vm/mod.rs"), r"fn perform_include\s*\(")
+    body = re.sub(r"//.*", "", body)
+    if not re.search(r"let\s+obj\s*=\s*name\.as_object\(\)\s*;", body):
+        raise KeyError("perform_include: let obj = name.as_object()")
+    m = re.search(r"let\s+(?:mut\s+)?choices\s*=\s*(.*?);", body, re.S)
+    if not m or not re.search(r"for\s+choice\s+in\s+choices\s*\{", body):
+        raise KeyError("perform_include: choices")
+    steps = _split_top(re.sub(r"\s+", "", m.group(1)), ".")
+    if steps[0] != "obj":
+        raise KeyError("perform_include: choices does not start from obj")
+    steps = steps[1:]
+    kept = list(reprs)
+    i = 0
+    while i < len(steps) and steps[i] != "and_then(|d|d.try_iter())":
+        st = steps[i]
+        if st in ("as_ref()", "clone()", "as_deref()"):
+            pass
+        elif re.fullmatch(r"filter\(\|d\|d\.repr\(\)==ObjectRepr::(\w+)\)", st):
+            only = re.fullmatch(r"filter\(\|d\|d\.repr\(\)==ObjectRepr::(\w+)\)", st).group(1)
+            kept = [r for r in kept if r == only]
+        elif re.fullmatch(r"filter\(\|d\|d\.repr\(\)!=ObjectRepr::(\w+)\)", st):
+            no = re.fullmatch(r"filter\(\|d\|d\.repr\(\)!=ObjectRepr::(\w+)\)", st).group(1)
+            kept = [r for r in kept if r != no]
+        elif re.fullmatch(r"filter\(\|d\|(!?)matches!\(d\.repr\(\),([\w:|]+)\)\)", st):
+            g = re.fullmatch(r"filter\(\|d\|(!?)matches!\(d\.repr\(\),([\w:|]+)\)\)", st)
+            named = re.findall(r"ObjectRepr::(\w+)", g.group(2))
+            kept = [r for r in kept if (r in named) != (g.group(1) == "!")]
+        else:
+            raise KeyError("perform_include: unknown step in front of try_iter: " + st)
+        i += 1
+    if i == len(steps):
+        raise KeyError("perform_include: choices does not call try_iter")
+    tail = steps[i + 1:]
+    if tail == ["unwrap_or_else(||Box::new(Some(name.clone()).into_iter()))"]:
+        fallback = "single-name"
+    elif tail == ["into_iter()", "flatten()", "chain(obj.is_none().then(||name.clone()))"]:
+        fallback = "single-name-unless-object"
+    else:
+        raise KeyError("perform_include: unknown tail of choices: " + ".".join(tail))
+    c = re.search(r"if\s+([^{};]+?)\s*\{\s*Err\(\s*Error::new\(\s*ErrorKind::TemplateNotFound", body)
+    if not c:
+        raise KeyError("perform_include: TemplateNotFound condition")
+    cond = re.sub(r"\s+", "", c.group(1))
+    if "||" in cond or "(" in cond.replace("is_empty()", ""):
+        raise KeyError("perform_include: TemplateNotFound condition is not a conjunction of atoms: " + cond)
+    atoms = cond.split("&&")
+    lst = lambda xs: "[" + ", ".join(lean_str(x) for x in xs) + "]"
+    lean = ("def c06ObjectReprs : List String := %s\n"
+            "def c06IncludeIteratedReprs : List String := %s\n"
+            "def c06IncludeFallback : String := %s\n"
+            "def c06IncludeNotFoundCond : List String := %s" % (lst(reprs), lst(kept), lean_str(fallback), lst(atoms)))
+    return {"reprs": reprs, "iterated": kept, "fallback": fallback, "not_found_when": atoms}, lean
